@@ -103,10 +103,12 @@ def run(rep):
         _loop_rules(rep, repo, app, dv, cfg, f)
 
     # each group is analysed on its own: a construct one group cannot follow does not hide the verdicts of the others
+    n_gaps = len(rep.gaps)
     rep.guard(order_rules)
     rep.guard(loop_rules)
-    rep.guard(lambda: rep.floor('R06.a', 5))
-    rep.guard(lambda: rep.floor('R06.b', 9))
+    if len(rep.gaps) == n_gaps:     # (the floors count instances of groups that ran to the end)
+        rep.guard(lambda: rep.floor('R06.a', 5))
+        rep.guard(lambda: rep.floor('R06.b', 9))
     rep.guard(_sentinel_rules, rep, repo, app, route)
     rep.guard(_method_rules, rep, repo, app, route)
     rep.guard(lambda: rep.floor('R06.d', 12))
@@ -216,8 +218,10 @@ def _loop_rules(rep, repo, app, dv, cfg, f):
               'match_method is not applied to request.method', app, dv.method_st)
     # (iii) from execute back to the loop header
     addx = [s for s in dv.calls_stmt('add_exception', dv.ds_var) if norm(s.value.args[0]) == dv.ret_var]
-    brk_f = [nid for nid, t_, p_ in cfg.branches() if 'is_breaking' in norm(t_) and dv.ret_var in norm(t_) and p_ is False]
-    http_t = [nid for nid, t_, p_ in cfg.branches() if norm(t_) == 'isinstance(%s, HTTPException)' % dv.ret_var and p_ is True]
+    BRK = ("getattr(%s, 'is_breaking', True)" % dv.ret_var, '%s.is_breaking' % dv.ret_var)
+    is_brk = lambda t: isinstance(t, (ast.Call, ast.Attribute)) and 'is_breaking' in norm(t) and dv.ret_var in norm(t)
+    brk_f = dv.branches_where(is_brk, False)
+    http_t = dv.branches_where(lambda t: norm(t) == 'isinstance(%s, HTTPException)' % dv.ret_var, True)
     src = exec_nodes
     for label, nodes in (('dispatch_state.add_exception(ret)', cfg.nodes_of_all(addx)), ('"is_breaking" false', brk_f),
                          ('result is an HTTPException', http_t)):
@@ -231,8 +235,8 @@ def _loop_rules(rep, repo, app, dv, cfg, f):
     rep.check('R06.b', fkey(f, 'non-breaking error continues'), ok, 'after recording a non-breaking error the next route is tried' if ok else
               'a non-breaking error does not lead to trying the next route', app, addx[0] if addx else dv.exec_st)
     # is_breaking default must be True (missing attribute => breaking)
-    bt = [t_ for nid, t_, p_ in cfg.branches() if 'is_breaking' in norm(t_)]
-    ok = bool(bt) and all(norm(t) in ("getattr(%s, 'is_breaking', True)" % dv.ret_var, '%s.is_breaking' % dv.ret_var) for t in bt)
+    bt = [t for n in cfg.nodes if n.kind == 'branch' for t, p in dv.branch_conds(n.id) if is_brk(t)]
+    ok = bool(bt) and all(norm(t) in BRK for t in bt)
     rep.check('R06.b', fkey(f, 'is_breaking default'), ok, 'errors are breaking unless marked otherwise' if ok else
               'is_breaking test changed: %s' % [norm(t) for t in bt], app, dv.exec_st)
     # (iv) dominance
@@ -396,9 +400,12 @@ def _method_rules(rep, repo, app, route):
         elif isinstance(v, ast.Constant) and v.value is False:
             # refused: the membership test failed on this path, and there are methods to compare with
             refusals.append(any(member(t) is not None and member(t) is not p for t, p in cs) and methods_nonempty(cs))
-        elif member(v) is True:
-            # the membership test is the answer: it may only be asked when there are methods to compare with
-            refusals.append(methods_nonempty(cs))
+        elif v is not None and not isinstance(v, ast.Constant):
+            # the answer is an expression: it refuses when the expression is false, which must say that the membership
+            # test failed and that there are methods to compare with (``not (m and ms) or m.upper() in ms`` included)
+            from ..cfg import expand_conds
+            cs2 = cs + expand_conds([(v, False)])
+            refusals.append(any(member(t) is not None and member(t) is not p for t, p in cs2) and methods_nonempty(cs2))
             admits.append(r)
         else:
             unknown.append(r)
